@@ -78,7 +78,12 @@ def _r1(chk, repo, ci):
     ok = k_ == "return" and _pn(r_) == _pn(f"{m}(self.samples,*args,**kwargs)")
     chk.add("C19-R1", f"{ci.qual}._compute_numpy_stats", ok, site(repo, ns), "method(self.samples, *args, **kwargs)", "statistics helper does not apply the method to self.samples", ns)
     p = ci.props.get("Ns")
-    ok = p is not None and any(_norm(r.value) in ("self.samples.shape[-1]", "len(self.samples)") for r in ast.walk(p.getter) if isinstance(r, ast.Return))
+    ok = False
+    if p is not None and p.getter is not None:
+        from .common import closed_outcomes
+        o1 = closed_outcomes(repo, ci, p.getter, valuation={_pn("isinstance(self.samples,list)"): True})
+        o2 = closed_outcomes(repo, ci, p.getter, valuation={_pn("isinstance(self.samples,list)"): False})
+        ok = o1 == {("return", _pn("len(self.samples)"))} and o2 == {("return", _pn("self.samples.shape[-1]"))}
     chk.add("C19-R1", f"{ci.qual}.@Ns", ok, site(repo, p.getter) if p else "", "number of samples = length of the last axis", "Ns is not the length of the last axis")
 
 
@@ -134,8 +139,30 @@ def _r2(chk, repo, ci):
     js = repo.cls("cuqi/samples/_samples.py:JointSamples")
     jf = repo.method(js, "burnthin")[1]
     nb, nt = func_params(jf)[1:3]
-    ok = match(repo, js, jf, [f"return JointSamples({{_k0:_k1.burnthin({nb},{nt}) for _k0,_k1 in self.items()}})"]) is not None or \
-        match(repo, js, jf, ["$r=JointSamples()", "for: ($k,$s) : self.items()", f"$r[$k]=$s.burnthin({nb},{nt})", "return $r"]) is not None
+    # every member is burn-thinned with the caller's (Nb, Nt): one inner burnthin call, arguments bound by Samples.burnthin's signature, its receiver is
+    # the value of an iteration over all items of self, and the result is a JointSamples built from those pairs
+    from .common import KwCanon
+    kcb = KwCanon()
+    inner = [c for c in ast.walk(jf) if isinstance(c, ast.Call) and isinstance(c.func, ast.Attribute) and c.func.attr == "burnthin"]
+    ok = False
+    if len(inner) == 1:
+        c = inner[0]
+        ps_ = func_params(repo.method(ci, "burnthin")[1])[1:]
+        bound_ = dict(zip(ps_, c.args))
+        bound_.update({k_.arg: k_.value for k_ in c.keywords if k_.arg})
+        args_ok = _norm(bound_.get(ps_[0], ast.Constant(value=None))) == nb and (_norm(bound_[ps_[1]]) == nt if ps_[1] in bound_ else False)
+        recv = c.func.value
+        iters = [(n_.target, n_.iter) for n_ in ast.walk(jf) if isinstance(n_, (ast.For, ast.comprehension))]
+        over_all = False
+        for tg, it in iters:
+            if _norm(it) == "self.items()" and isinstance(tg, ast.Tuple) and len(tg.elts) == 2 and path_of(recv) == path_of(tg.elts[1]):
+                over_all = True
+            if _norm(it) in ("self", "self.keys()") and isinstance(tg, ast.Name) and _norm(recv) == f"self[{tg.id}]":
+                over_all = True
+            if _norm(it) == "self.values()":
+                over_all = False
+        built = any(isinstance(x, ast.Call) and call_name(x) == "JointSamples" for x in ast.walk(jf))
+        ok = args_ok and over_all and built
     chk.add("C19-R2", f"{js.qual}.burnthin", ok, site(repo, jf), "same (Nb, Nt) applied to every member", "joint burnthin does not apply the same (Nb, Nt) to every member", jf)
 
 
